@@ -337,6 +337,7 @@ def vectorised(ctx, family, param, m):
             D._set(pp, (j,), f.partial(X[:, j], index))
         if np.shape(pa) == (m,):
             ctx.eq('array partial == point-wise partial', pa, pp)
+    ctx.eq('the array of points handed to the function object is left unchanged', X, ctx.input('X', (dim, m), False))
 
 
 @scenario('C14', 'bspline_wiring', lambda tier: [{'degree': dg} for dg in (1, 2, 3)])
